@@ -56,3 +56,9 @@ Print Assumptions C04_motor_duty_nearest.
 Theorem C04_motor_delay_within_1ms : forall q, (0 <= q)%Q -> (0 <= q - inject_Z (ctrunc q))%Q /\ (q - inject_Z (ctrunc q) < 1)%Q.
 Proof. exact ctrunc_within_ms. Qed.
 Print Assumptions C04_motor_delay_within_1ms.
+
+(* inside the guard every host sleep is >= 0 ms, so C04_motor_delay_within_1ms applies to every delay of the signal *)
+Theorem C04_motor_sleeps_nonneg : forall m o, motor_in_range m o = true ->
+  Forall (fun q => (0 <= q)%Q) (sleeps (mevents (mstep m o))).
+Proof. exact motor_sleeps_nonneg. Qed.
+Print Assumptions C04_motor_sleeps_nonneg.
